@@ -438,6 +438,49 @@ pub fn template_promotion(rng: &mut Rng) -> Pos {
     }
 }
 
+pub fn is_castle_lookalike(p: &Pos, m: Mv) -> bool {
+    let k = kind(p.sq[m.from as usize]);
+    let pairs = [(4u8, 6u8), (4, 2), (60, 62), (60, 58)];
+    k != KING && k != PAWN && pairs.iter().any(|(a, b)| (m.from == *a && m.to == *b) || (m.from == *b && m.to == *a))
+}
+
+/// (c) a rook or queen standing on e1/e8 (or g1/c1/g8/c8) with the castling-looking square
+/// free, kings elsewhere
+pub fn template_castle_lookalike(rng: &mut Rng) -> Pos {
+    loop {
+        let mut p = Pos::empty();
+        let white = rng.chance(1, 2);
+        let rank = if white { 0 } else { 7 };
+        let col = if white { 0 } else { BLACK };
+        let on_e = rng.chance(2, 3);
+        let other = if rng.chance(1, 2) { 6 } else { 2 };
+        let piece_sq = if on_e { sq(4, rank) } else { sq(other, rank) };
+        p.sq[piece_sq as usize] = *rng.pick(&[ROOK, ROOK, QUEEN]) | col;
+        let wk = rng.below(64) as u8;
+        let bk = rng.below(64) as u8;
+        if p.sq[wk as usize] != 0 || p.sq[bk as usize] != 0 || wk == bk {
+            continue;
+        }
+        // keep the mover's king off the e-file home square and off the lookalike path
+        if rank_of(if white { wk } else { bk }) == rank {
+            continue;
+        }
+        p.sq[wk as usize] = KING;
+        p.sq[bk as usize] = KING | BLACK;
+        for _ in 0..rng.below(6) {
+            let s = rng.below(64) as u8;
+            if p.sq[s as usize] != 0 || rank_of(s) == rank || rank_of(s) == 0 || rank_of(s) == 7 {
+                continue;
+            }
+            p.sq[s as usize] = *rng.pick(&[PAWN, KNIGHT, BISHOP, ROOK, QUEEN]) | if rng.chance(1, 2) { BLACK } else { 0 };
+        }
+        p.white_to_move = if rng.chance(3, 4) { white } else { !white };
+        if p.is_legal_position() && !p.is_terminal() {
+            return p;
+        }
+    }
+}
+
 /// (c) repetition shuffle: from `start`, both sides move a piece there and back `reps`
 /// times (when a reversible pair exists), interleaved with a few ordinary moves.
 pub fn shuffle_game(rng: &mut Rng, start: &Pos, reps: usize, interleave: usize) -> Vec<Mv> {
@@ -450,6 +493,10 @@ pub fn shuffle_game(rng: &mut Rng, start: &Pos, reps: usize, interleave: usize) 
         let mut found = None;
         let mut order: Vec<usize> = (0..ms.len()).collect();
         rng.shuffle(&mut order);
+        // moves that look like castling in text (e1g1, e1c1, e8g8, e8c8 and back) but are made
+        // by a rook or queen come first: every place that recognises castling by squares alone
+        // is exposed by them
+        order.sort_by_key(|&i| if is_castle_lookalike(&p, ms[i]) { 0 } else { 1 });
         'outer: for &i in order.iter().take(12) {
             let a = ms[i];
             if p.is_capture(a) || kind(p.sq[a.from as usize]) == PAWN || p.is_castling(a) {
@@ -522,7 +569,13 @@ pub fn gen_game(rng: &mut Rng, max_plies: usize) -> Game {
         6 => (template_castling(rng), "tmpl-castling"),
         7 => (template_en_passant(rng), "tmpl-ep"),
         8 => (template_promotion(rng), "tmpl-promotion"),
-        _ => (synth_position(rng), "synth"),
+        _ => {
+            if rng.chance(1, 2) {
+                (template_castle_lookalike(rng), "tmpl-castle-lookalike")
+            } else {
+                (synth_position(rng), "synth")
+            }
+        }
     };
     if matches!(source, "tmpl-castling" | "tmpl-ep" | "tmpl-promotion") && rng.chance(1, 2) {
         start = mirror(&start);
